@@ -1,3 +1,4 @@
+use crate::sdk::std::flowcontrol::clear_call_stacks_for_context;
 use crate::types::scope::clear;
 use crate::types::scope::set_line_context_name;
 use crate::utils::eval;
@@ -129,6 +130,7 @@ impl Command for AliasCommand {
                 None => (),
             }
             clear(&self.scope_name, context.variables);
+            clear_call_stacks_for_context(&self.scope_name, context.state);
             set_line_context_name(&line_context_name, context.state);
 
             let end_count = context.variables.len();
